@@ -1,13 +1,40 @@
 (* C12, HLL part -- emitted bytes follow the cross-language layout.  Statements only.
    Spec/HllLayout.v holds the layout written from the format description (independent of the
    model): constants, [hll_spec_decode], the spec encoders.
-   PARTIAL: for HLL only the constant glue is proved; the conformance statement
-       forall well-formed s, hll_spec_decode (hll_serialize s) = Some (abstract state of s)
-   is not proved -- it is checked by the layout oracle (Corr/Hll.v layout_ok) on every image the
-   crate emits in the correspondence run. *)
-From DS Require Import Base.Prelude Model.Hll Model.HllCodec Spec.HllLayout.
+   [image_shows lg_k cs s im] (Proofs/HllLayoutProofs.v): the decoded image im has lg_k, the target
+   type of s, the mode of s, and holds exactly the coupons of cs (list / set mode, no duplicates) or
+   the k register values spec_regs lg_k cs j (array mode: read through the Hll4 nibbles + exception
+   list, the Hll6 bit string, the Hll8 bytes).  The writer modelled is the REPAIRED one (COMPACT flag
+   on array images: known_findings.d/C12-hll-array-compact-flag). *)
+From DS Require Import Base.Prelude Model.Hll Model.HllCodec Spec.HllLayout Proofs.HllBase Proofs.HllArray4 Proofs.HllRefine
+  Proofs.HllUnionProofs Proofs.HllCodecProofs Proofs.HllLayoutProofs.
 From DS Require Gen.GenHll Gen.GenCodec.
 Open Scope N_scope.
+
+(* model_enc_conforms: the independent decoder applied to the image of ANY well-formed sketch (built,
+   merged, deserialized; any type / mode / estimator state) recovers its abstract state *)
+Theorem c12_hll_image_conforms :
+  forall lgk arrf cs s, SrcOK lgk arrf cs s -> list_lg_ok s -> a6_wf s ->
+  exists im, hll_spec_decode (hll_serialize s) = Some im /\ image_shows lgk cs s im.
+Proof. exact hll_image_conforms. Qed.
+
+(* for EVERY stream (all lg_k, types): the image of the reached sketch decodes to the Spec state of the
+   stream -- mode = function of the number of distinct coupons, coupon set / per-slot maxima *)
+Theorem c12_hll_image_conforms_of_stream :
+  forall lgk t cs, 4 <= lgk <= 21 -> Forall valid cs ->
+  exists s im, run_stream hip_new hip_update hip_carry lgk t cs = Ok s /\
+    hll_spec_decode (hll_serialize s) = Some im /\ image_shows lgk cs s im /\
+    sk_tag s = spec_mode lgk (distinct cs) /\ sk_tgt s = t.
+Proof. exact hll_image_conforms_of_stream. Qed.
+
+(* Hll4 in detail: registers through nibbles and exceptions, cur_min, num_at_cur_min, the aux list *)
+Theorem c12_hll_array4_image :
+  forall lgk regs (a : arr4 hip), 4 <= lgk <= 21 -> Inv4 lgk regs a -> (forall j, j < 2 ^ lgk -> regs j <= 63) ->
+  exists im, hll_spec_decode (a4_serialize a lgk) = Some im /\ im_lgk im = lgk /\ im_type im = 0 /\ im_mode im = 2 /\
+    im_ooo im = h_ooo (a4_est a) /\ im_regs im = map regs (Nseq 0 (N.to_nat (2 ^ lgk))) /\
+    im_cur_min im = a4_cur_min a /\ im_num_at_cur_min im = a4_num a /\
+    im_aux im = match a4_aux a with Some m => aux_pairs m | None => [] end.
+Proof. exact a4_image_conforms. Qed.
 
 (* the constants translated from the Rust sources are the specification's: changing a flag bit,
    a preamble size, a mode/type code or the family id on both the writer and the reader side of the
